@@ -4,16 +4,18 @@
    hed_group.py (HedGroup.__init__, replace, _replace, get_all_groups,
    get_all_tags, find_def_tags, _get_def_tags_from_group, find_tags, __str__),
    hed_tag.py (HedTag.expandable, expanded, short_base_tag setter, __deepcopy__).
-   [fx] = the repaired code (C09-F1 fix): expand_defs sets tag._expanded = True
-   and shrink_defs sets it to False.  Models only -- no proofs. *)
+   [fx = true] = the code as it is since fix commit 60986da (former C09-F1/F3):
+   expand_defs sets tag._expanded = True and shrink_defs sets it to False;
+   [fx = false] = the behaviour before that commit, kept as a record.  Models only -- no proofs. *)
 From Coq Require Import List NArith Arith Bool.
 From HV Require Import Base.Res Base.Str Model.Defs.
 Import ListNotations.
 
 Definition id := nat.
 
-(* Which code the tree under test is: mirrored by FIXED / FIXED_F2 in
-   harness/c09.py (checked on every run).  false = the unrepaired code. *)
+(* The mode of the code as it is in /repo: mirrored by FIXED / FIXED_F2 in
+   harness/c09.py (checked on every run).  true = since fix commits 60986da (fx) and
+   cbb8087 (fs); false = the behaviour before them. *)
 Definition current_fx : bool := true.
 Definition current_fs : bool := true.
 
